@@ -59,6 +59,8 @@ def run(ctx):
   rule_shift(ctx)
   rule_intpow(ctx)
   rule_next(ctx)
+  rule_sanity(ctx)
+  ctx.expect("R-C18-SANITY", 1, "Cr50U2fSubProblem")
   # an all-zero Jacobian triple makes JacobianToAffine raise ValueError: doubling must send 2-torsion points (y = 0) and infinity to INFINITY_JACOBIAN,
   # and the batched conversions must treat z = 0 (shared with C11)
   from . import c11
@@ -738,3 +740,33 @@ def rule_next(ctx):
         ctx.record(R, fn.where, norm(n)[:70], endless, "endless iterator" if endless else
                    "next() without a default: StopIteration escapes when no element satisfies the generator's filter (empty iterator)")
   ctx.ok(R, "package", "scan", "%d functions scanned, %d next() calls" % (n_fn, n_sites))
+
+
+# ------------------------------------------------------------------ SANITY (Cr50U2fGuesses raises ArithmeticError when the two derived keys differ)
+def rule_sanity(ctx):
+  """cr50_u2f_weakness.Cr50U2fGuesses derives the key twice from a pair (k1, k2) and raises ArithmeticError("Sanity check failed") when the two values differ.
+  They agree exactly when k1 * a + k2 * b == w (mod p) for the pair that is used: every pair Cr50U2fSubProblem yields must have passed that test itself
+  (not its negation, not the signed value whose absolute value is yielded)."""
+  R = "R-C18-SANITY"
+  repo = ctx.repo
+  f = repo.func("cr50_u2f_weakness", "Cr50U2fSubProblem")
+  w = sym.Walker(repo, f)
+  w.run()
+  a, b_, wv, p = [P("param", x) for x in f.params()[:4]]
+  ys = [e for e in w.events if e.kind == "yield"]
+  probs = []
+  if not ys:
+    ctx.incomplete(R, f.where, "yielded pairs satisfy the relation", "no yield found")
+    return
+  for e in ys:
+    v = e.data["value"]
+    if not (isinstance(v, Seq) and len(v.items) == 2 and all(isinstance(x, Poly) for x in v.items)):
+      probs.append("a yield is not a pair")
+      continue
+    k1, k2 = v.items
+    rel = k1 * a + k2 * b_ - wv
+    ok = any(fc[0] == "cmp" and fc[1] == "Eq" and isinstance(fc[2], Poly) and isinstance(fc[3], Poly) and fc[3].is_zero() and fc[2].as_atom() is not None and
+             fc[2].as_atom().kind == "mod" and as_poly(fc[2].as_atom().args[1]) == p and (as_poly(fc[2].as_atom().args[0]) - rel).is_zero() for fc in e.facts)
+    if not ok:
+      probs.append("a pair is yielded without k1 * a + k2 * b - w == 0 (mod p) having been tested on that very pair: the consumer's sanity check can fail and raise")
+  ctx.record(R, f.where, "yielded pairs satisfy the relation", not probs, "; ".join(sorted(set(probs))) or "%d yield site(s), each dominated by the relation on the yielded values" % len(ys))
